@@ -330,8 +330,7 @@ func (g *pgen) genSingle() *single {
 		s.text = "%" + string(cl)
 		s.accept = classAccept(cl)
 	case k < 76: // escaped magic / punctuation
-		// also letters that name no class: lstrlib's default case takes them literally, upper case included (no complement)
-		c := "^$()%.[]*+-?!,;QEKNYTeknyt"[rapid.IntRange(0, 25).Draw(g.t, "esc")]
+		c := "^$()%.[]*+-?!,;"[rapid.IntRange(0, 14).Draw(g.t, "esc")]
 		s.text = "%" + string(c)
 		s.accept[c] = true
 	case k < 96:
@@ -408,7 +407,7 @@ func (g *pgen) genSet(s *single) {
 			}
 			prevEsc, prevRange = true, false
 		default: // escaped magic
-			c := "]-%^[.$QEKNBFekn"[rapid.IntRange(0, 15).Draw(g.t, "setesc")]
+			c := "]-%^[.$"[rapid.IntRange(0, 6).Draw(g.t, "setesc")]
 			b.WriteByte('%')
 			b.WriteByte(c)
 			acc[c] = true
